@@ -7,20 +7,25 @@ import (
 	"crypto/tls"
 	"crypto/x509"
 	"crypto/x509/pkix"
+	"encoding/pem"
+	"fmt"
 	"math/big"
 	"net"
+	"os"
+	"path/filepath"
 	"sync"
 	"time"
 )
 
 // pki is an in-process CA generated once per worker process.
 type pkiT struct {
-	caCert  *x509.Certificate
-	caKey   *ecdsa.PrivateKey
-	pool    *x509.CertPool
-	otherCA *pkiT
-	leafMu  sync.Mutex
-	leafs   map[string]tls.Certificate
+	caCert         *x509.Certificate
+	caKey          *ecdsa.PrivateKey
+	pool           *x509.CertPool
+	otherCA        *pkiT
+	systemRootFile string
+	leafMu         sync.Mutex
+	leafs          map[string]tls.Certificate
 }
 
 var (
@@ -43,6 +48,22 @@ func getPKI() *pkiT {
 	pkiOnce.Do(func() {
 		thePKI = newCA("verif test CA")
 		thePKI.otherCA = newCA("verif UNTRUSTED CA")
+		// Make the test CA the process's only system root as well (a Dialer whose
+		// TLSClientConfig is nil verifies against the system roots). This only has an
+		// effect when it happens before the first certificate verification of the process.
+		root := os.Getenv("VERIF_ROOT")
+		if root == "" {
+			root = "/verif"
+		}
+		dir := filepath.Join(root, ".build", "ca")
+		os.MkdirAll(dir, 0o755)
+		f := filepath.Join(dir, fmt.Sprintf("ca-%d.pem", os.Getpid()))
+		pemBytes := pem.EncodeToMemory(&pem.Block{Type: "CERTIFICATE", Bytes: thePKI.caCert.Raw})
+		if os.WriteFile(f, pemBytes, 0o644) == nil {
+			os.Setenv("SSL_CERT_FILE", f)
+			os.Setenv("SSL_CERT_DIR", filepath.Join(dir, "empty"))
+			thePKI.systemRootFile = f
+		}
 	})
 	return thePKI
 }
